@@ -148,7 +148,7 @@ Record request := {
   q_cb_redeem_ok : bool;        (* provider.Redeem succeeded with a non-empty e-mail *)
   q_cb_state : cb_state;
   q_cb_csrf : option str;       (* value of the CSRF cookie *)
-  q_cb_user_ok : bool           (* validators admit the redeemed session *)
+  q_cb_user_ok : bool           (* validators accept the redeemed session *)
 }.
 
 Inductive how := Verbatim | WithCode.
